@@ -13,6 +13,97 @@ BASE_NOTE = (
 )
 
 CLAIMS = {
+    "C08": dict(
+        text="Lean theorems on the declaration guards of the kernel model: an unclaimed path can be declared, a repeat "
+             "by the same creator in the same role is a no-op, every other declaration of a claimed path is rejected, "
+             "and whether two declarations of one path conflict does not depend on which is already in the graph "
+             "(file_conflict_symmetric); claims come only from attached nodes; the owning tree is an attached tree "
+             "whose label is a prefix of the path; anything declared under a foreign tree is rejected. The global "
+             "ownership invariants are evaluated on the real database after every generated request, and every "
+             "generated pair of declarations is applied in both orders on fresh workflows (accept/reject, message "
+             "text, resulting graph).",
+        note=BASE_NOTE + "Message texts are compared on the implementation only. Known findings F15-F19 (glob versus "
+             "a product not yet on disk, nested trees of one creator, three cosmetic wording differences) are listed "
+             "in known_findings.jsonl; F12 was fixed.",
+        technique="Lean 4 proof of the guard decision logic + kernel correspondence + both-orders differential oracle",
+        design="9/C08",
+    ),
+    "C10": dict(
+        text="Lean theorems: the regenerated truth tables of STEP_DISPATCH_WHERE (640 rows) and "
+             "UNAVAILABLE_INPUT_WHERE equal their specifications on the complete domain; a step accepted by the "
+             "model of SELECT_NEXT_STEP satisfies every dispatch condition and every step that satisfies them is "
+             "accepted; pop_next_job dispatches only eligible steps and answers 'nothing' only when none is "
+             "eligible (on refreshed metadata); _update_meta_ready makes the cached _ready equal its definition, "
+             "which does not depend on cached columns; the defer cap. The cache invariant (every stale cached column "
+             "is covered by a flag) and the from-scratch eligibility are evaluated on the real database after every "
+             "generated request and at every dispatch decision.",
+        note=BASE_NOTE + "Priority among eligible steps is not part of the property. Phase termination is relative to "
+             "'every started command terminates' plus the defer cap. F14 (stale _safe) was found by this oracle and fixed.",
+        technique="Lean 4 proof over regenerated SQL truth tables + kernel correspondence + from-scratch scheduling oracle",
+        design="9/C10",
+    ),
+    "C11": dict(
+        text="Lean theorems on the model of UPDATE_CHECK_AFTER and dispatch: the implied need is at least the "
+             "declared need, an exact target elevates any producer, a directory target spares OPTIONAL steps, need "
+             "propagates from every attached consumer to its producers, the threshold rule, only steps above the "
+             "threshold are dispatched, a DEFAULT step without elevation is not built under targets. The oracle "
+             "recomputes the need of every step from its definition on the real database at every dispatch and "
+             "metadata refresh and checks the selection of revert_optional_steps.",
+        note=BASE_NOTE + "That the worklist of _update_meta_after reaches the fixpoint after any history is decided by "
+             "the oracle on generated sequences, not by a theorem yet; whole-build statements on simulated builds.",
+        technique="Lean 4 proof of the per-step need computation + kernel correspondence + from-scratch need oracle",
+        design="9/C11",
+    ),
+    "C12": dict(
+        text="Lean theorems: a step that passes the resource test requires only defined resources and fits next to "
+             "what RUNNING steps hold; a step dispatched to run its command has its resources free and is _safe (no "
+             "holding creator); release without hold is rejected; leaving RUNNING resets the hold counter. The oracle "
+             "checks resource sums of RUNNING steps and holding creators on the real database after every request.",
+        note=BASE_NOTE + "The job limit and the overlap of executions in time are properties of the builder loop and "
+             "are decided on simulated builds (not claimed by a theorem). F7/F9 (recycling a detached RUNNING step) "
+             "remain in scope of the oracle.",
+        technique="Lean 4 proof of the dispatch-time resource/hold decision + kernel correspondence + invariant oracle",
+        design="9/C12",
+    ),
+    "C15": dict(
+        text="Lean theorems: every exposed DirectorHandler coroutine mutates the workflow inside at most one "
+             "transaction block, calls no mutator outside and never awaits inside (table regenerated by ast); a "
+             "rejected kernel request leaves state and configuration unchanged, including the composite "
+             "declare_static request failing at any stage; DBSession as a state machine is serialisable for every "
+             "interleaving (committed state = transactions left normally, whole, in commit order). Correspondence: "
+             "kernel sequences with rejected requests, the real DBSession under generated task schedules.",
+        note=BASE_NOTE + "SQLite's atomic commit/rollback is trusted. 'Received in full is applied in full' at the "
+             "connection level is covered by C16 (handler tasks survive a vanishing peer).",
+        technique="Lean 4 proof (serialisability by simulation relation, ast-regenerated handler table) + differential "
+                  "correspondence on DBSession and on rejected kernel requests",
+        design="9/C15",
+    ),
+    "C16": dict(
+        text="Lean theorems for all message lists, chunkings and event scripts: frame round trip under any "
+             "fragmentation, oversize header is an error, truncation is 'peer gone'; the server connection keeps every "
+             "received call in exactly one of in-flight/queued/replied/dropped and replies carry the id they were "
+             "received with; client pairing; only flagged procedures are invoked (over the regenerated "
+             "DirectorHandler table); failure-class mapping over the regenerated exception table. Three full "
+             "statements are false of the code and kept as _partial + _negation with witnesses replayed on the real "
+             "code every run (half-closed peer gets no reply, foreign reply id fails the client, unpicklable result "
+             "cancels sibling handlers).",
+        note=BASE_NOTE + "asyncio task scheduling is modelled as nondeterministic events; kernel socket behaviour is "
+             "exercised only in the thorough tier (socketpair).",
+        technique="Lean 4 proof (decoder induction, connection invariants) + event-script correspondence on the real "
+                  "RPCServerConnection / client",
+        design="9/C16",
+    ),
+    "C17": dict(
+        text="Lean theorems: incremental update equals rescan and will_change is none iff nothing changed; repeated "
+             "names bind equal substrings; the recorded set equals the globbed existing paths accepted by the regex "
+             "(full since the two fixes); regenerated obligations that all compile sites pass DOTALL; the language "
+             "equalities (regex = glob, anonymous = named) have _partial results and concrete _negation theorems for "
+             "four known classes. Correspondence on emitted regex/glob strings, matcher, NamedGlob.glob on real trees.",
+        note=BASE_NOTE + "Python re and glob are modelled for the fragment the compilers emit. Known findings: four "
+             "classes where the regex accepts an existing path that glob never returns.",
+        technique="Lean 4 proof over a regex AST / glob model + differential correspondence on real directory trees",
+        design="9/C17",
+    ),
     "C09": dict(
         text="Lean theorems (first round): obligations on the regenerated _HASH_TRANSITIONS table (role preserved, "
              "hash/state consistency, functional, action targets); every write to a file row leaves a row satisfying "
